@@ -519,6 +519,10 @@ func (f *Frame) execSwitch(x *ast.SwitchStmt, st *State) []Outcome {
 		var conds []Term
 		for _, ce := range clause.List {
 			if tag != nil {
+				if f.isNilExpr(ce) {
+					conds = append(conds, f.nilTest(tag, ce.Pos()))
+					continue
+				}
 				v := f.evalExpr(ce, cur)
 				conds = append(conds, in.valEq(tag, v, cur, f, ce.Pos()))
 			} else {
